@@ -214,13 +214,15 @@ Reset(run, tgt, task, a, s) ==
     /\ UNCHANGED <<tab, idx, prime>>
 
 (* db.trace(["task.a"]): latest run per (non-dunder) target of the highest registered version of the algorithm;
-   KeyError for an unknown task, IndexError when no algorithm matches *)
+   KeyError for an unknown task, IndexError when no algorithm matches (raised while walking the targets) *)
 Report(tk, al) ==
     { [tn |-> t.n, run |-> MaxOf({ e.run : e \in { f \in prime : f.tg = t.id /\ f.tk = tk /\ f.al = al } })] :
         t \in { u \in tab["target"] : \E f \in prime : f.tg = u.id /\ f.tk = tk /\ f.al = al } }
 TraceReport(task, a) ==
     /\ Step
-    /\ IF ~Known("task", task) \/ Sub("alg", a, {IdIn(tab["task"], NOP, task, NOV)}) = {}
+    /\ IF tab["target"] = {}     \* the lookups happen per target: nothing to look up, nothing to fail
+       THEN out' = OArgs("Trace", "", task, a, "", "", 0, 0)
+       ELSE IF ~Known("task", task) \/ Sub("alg", a, {IdIn(tab["task"], NOP, task, NOV)}) = {}
        THEN out' = [OArgs("Trace", "", task, a, "", "", 0, 0) EXCEPT !.err = TRUE]
        ELSE LET tk == IdIn(tab["task"], NOP, task, NOV)
                 cands == Sub("alg", a, {tk})
@@ -259,7 +261,9 @@ Register(task, a, s, v) ==
        /\ UNCHANGED <<prime, cur>>
 
 (* DBI().close(); DBI().open(): indices rebuilt by util.indexed (names sorted by id) *)
-Indexed(T) == [i \in 1..Cardinality(T) |-> NameOf(CHOOSE e \in T : Cardinality({ g \in T : g.id < e.id }) = i - 1)]
+Indexed(T) == [i \in 1..Cardinality(T) |->
+                 LET S == { e \in T : Cardinality({ g \in T : g.id < e.id }) = i - 1 }
+                 IN IF S = {} THEN [p |-> -2, n |-> "?", v |-> -2] ELSE NameOf(CHOOSE e \in S : TRUE)]
 Reopen ==
     /\ Step
     /\ idx' = [t \in TABLES |-> Indexed(tab[t])]
